@@ -22,6 +22,7 @@ PROGRAMS = {
     "imr_on": "ccfb8f001303",
     "imr_toggle": "ccfb0000ccfb8f00130a",
     "imr_word": "cdfa00000000cdfa008f00130d",          # MVW (FA),0000 ; NOP NOP ; MVW (FA),8F00 ; NOP ; JR start   (the mask is rewritten by a word store that begins one byte below it)
+    "imr_mti": "ccfb820000ccfb8300130b",            # MV (FB),82 ; NOP NOP ; MV (FB),83 ; NOP ; JR start   (only the MTI mask bit is toggled; STI stays enabled, keyboard masked)
     "isr_clear": "ccfc00001306",
     "ir": "fe001304",
     "clr_halt": "ccfc00de1306",                    # MV (FC),0 ; HALT ; JR start   (a polled, masked request is acknowledged, then the CPU halts)
@@ -91,7 +92,7 @@ def monitor(impl, cfg, cname, hist, pre, ev, post, mon, vb: VB, bnds) -> Tuple:
     depth, waiting, acks, stale = mon
     acks = tuple(acks) if isinstance(acks, tuple) else ()
     wit = lambda: {"impl": impl, "config": cname, "history": [list(e) for e in hist]}  # noqa: E731
-    sig = lambda kind: f"C12/{impl}/{kind}/{cname.split('|')[0]}"  # noqa: E731
+    sig = lambda kind: f"C12/{impl}/{kind}/{cname.split('|')[0].replace('@', '-')}"  # noqa: E731
     if post.get("err"):
         vb.add(sig("step-error"), f"{impl} {cname}: {ev} failed: {post['err']} after {hist[:-1]}", wit)
         return mon
@@ -188,7 +189,7 @@ def monitor(impl, cfg, cname, hist, pre, ev, post, mon, vb: VB, bnds) -> Tuple:
             if pre["regs"][n] != post["regs"][n]:
                 vb.add(sig("event-changes-cpu-registers"), f"{impl} {cname}: {ev} changed {n} {pre['regs'][n]:#x}->{post['regs'][n]:#x}", wit)
     # ---------------- pending requests are not lost -------------------------------------------------------------
-    writes_isr = cname.split("|")[0] in ("isr_clear", "clr_halt", "isr_hi_halt") or "clr" in cname.split("|")[1]
+    writes_isr = cname.split("|")[0].partition("@")[0] in ("isr_clear", "clr_halt", "isr_hi_halt") or "clr" in cname.split("|")[1]
     if pre["power"] == "running" and not off_mode:
         lost = isr_pre & ~isr_post & 0x0F
         if ev[0] == "release_on":
@@ -323,7 +324,18 @@ def explore(impl, h, cfg, cname, depth, max_dev, vb: VB, roots_len: int = 5):
 
 
 def make_cfg(p, hname, imr, timer, kol=0xFF):
+    p, _, var = p.partition("@")
     cfg = M.default_cfg(bytes.fromhex(PROGRAMS[p]), bytes.fromhex(HANDLERS[hname]), imr=imr, timer=timer, kb_press=1, kol=kol)
+    if var.startswith("s"):
+        # the stack pointer starts 1-4 bytes above the bottom of the internal RAM (or of one of its 32 KiB images), so the
+        # five frame bytes straddle that edge: whatever the bus does there, push and pop must do it byte by byte alike
+        s0 = int(var[1:], 16)
+        cfg["regs"]["S"] = s0
+        cfg["obs_mem"] = [(s0 - 40, 48)] + list(M.OBS_MEM[1:])
+    if var in ("kboff", "kbstale"):
+        cfg["kb_irq"] = False                  # host switch: the keyboard raises no interrupts
+        if var == "kbstale":
+            cfg["imem"][0xFC] = 0x04           # ... while a key status bit is still standing in ISR (its mask bit stays clear)
     if p == "wait_scaled":
         cfg["timer_scale"] = 0.25
     if p == "xram":
@@ -351,7 +363,7 @@ def _shard(args):
 
 
 def combos_for(impl, thorough, seed):
-    progs = [p for p in PROGRAMS if p not in ("xram", "rst", "romw", "wait_scaled")]      # xram only adds a RAM expansion overlay for C16
+    progs = [p for p in PROGRAMS if p not in ("xram", "rst", "romw", "wait_scaled", "imr_mti")]      # xram only adds a RAM expansion overlay for C16
     hands = list(HANDLERS)
     if impl == "rust":
         imrs = IMRS if thorough else [0x00, 0x81, 0x84, 0x88, 0x8F, 0x0F]
@@ -366,6 +378,13 @@ def combos_for(impl, thorough, seed):
         # two timers with only one of them unmasked: the enabled request must be taken whichever source fired last
         out += [(p, "reti", i, TIMERS[7]) for p in ("nop", "zflag") for i in (0x81, 0x82)]
         out += [("nop", "bp", 0x8F, TIMERS[2]), ("zflag", "bp", 0x81, TIMERS[2])]      # the handler leaves BP non-zero at RETI time
+    # stack frames that straddle the lower edge of the internal RAM / of one of its images
+    seams = ["nop@sb8002", "nop@sb8004"] + (["nop@sb8001", "nop@sb8003", "nop@s90002", "zflag@sb8002"] if thorough or impl == "rust" else [])
+    out += [(p, hn, i, t) for p in seams for hn in ("reti", "clr") for i in (0x8F, 0x81) for t in (TIMERS[2],)]
+    if impl == "rust":
+        # keyboard interrupts switched off by the host with a stale key status bit: the timer requests must still be served
+        out += [(p, hn, i, t) for p in ("imr_mti@kbstale", "imr_mti@kboff", "imr_mti") for hn in ("reti", "clr") for i in (0x82, 0x83)
+                for t in (TIMERS[7], TIMERS[2])]
     if seed:
         k = seed % len(out)
         out = out[k:] + out[:k]
